@@ -231,6 +231,73 @@ def run_history(arg):
     return obs, viol, False
 
 
+def first_use_child(arg):
+    """fresh fork: the FIRST thing that ever touches a lazily registered type is the given entry point"""
+    entry, which = arg
+    import io
+    import uuid
+    import enum
+    import pathlib
+    import prettyprinter as pp
+
+    class E(enum.Enum):
+        A = 1
+
+    @pp.register_pretty(__name__ + '.RegByName')
+    def pretty_regbyname(r, ctx):
+        return pp.pretty_call(ctx, type(r), r.payload)
+    RegByName.__repr__ = pp.pretty_repr
+    values = {'uuid': uuid.UUID(int=5), 'enum': E.A, 'path': pathlib.PurePosixPath('/a/b'), 'byname': RegByName([1]), 'byname-sub': RegSub([2]), 'nested': [uuid.UUID(int=6), {'k': E.A}]}
+    v = values[which]
+    M.install_warning_recorder()
+    M.take_warnings()
+    if entry == 'pformat':
+        out = pp.pformat(v)
+    elif entry == 'pprint':
+        st = io.StringIO()
+        pp.pprint(v, stream=st, end='')
+        out = st.getvalue()
+    elif entry == 'cpprint':
+        st = io.StringIO()
+        pp.cpprint(v, stream=st, end='')
+        out = st.getvalue()
+    elif entry == 'PrettyPrinter':
+        out = pp.PrettyPrinter().pformat(v)
+    elif entry == 'pretty_repr':
+        out = repr(v) if which.startswith('byname') else pp.pretty_repr(v)
+    elif entry == 'is_registered-then-pformat':
+        pp.is_registered(type(v), check_superclasses=True, check_deferred=True, register_deferred=False)
+        out = pp.pformat(v)
+    return out, [w[1][:120] for w in M.take_warnings()]
+
+
+def first_use(sh):
+    entries = ['pformat', 'pprint', 'cpprint', 'PrettyPrinter', 'pretty_repr', 'is_registered-then-pformat']
+    whichs = ['uuid', 'enum', 'path', 'byname', 'byname-sub', 'nested']
+    n = 0
+    for which in whichs:
+        ref = None
+        for entry in entries:
+            n += 1
+            if not sh.mine(n):
+                continue
+            if ref is None:
+                st0, ref = fork_call(first_use_child, ('pformat', which), timeout=120)
+                if st0 != 'ok':
+                    sh.inconclusive.append('first-use reference failed: %s' % (ref,))
+                    return
+            st, r = fork_call(first_use_child, (entry, which), timeout=120)
+            if st != 'ok':
+                sh.inconclusive.append('first-use child failed: %s %s' % (st, str(r)[:200]))
+                continue
+            if r != ref:
+                sh.violation('first-use-entry-point-differs:' + entry, 'the first print of a lazily registered value (%s) through %s gives %r / warnings %r, through pformat %r' % (which, entry, r[0][:200], r[1], ref[0][:200]),
+                             {'first_use': [entry, which]})
+            else:
+                sh.counters['first-use prints through an entry point equal to pformat'] += 1
+            sh.case(('first-use', entry, which))
+
+
 def gen_history(rng):
     h = []
     for _ in range(rng.choice([0, 1, 1, 2, 3, 5])):
@@ -266,6 +333,7 @@ def all_combos():
 def run_shard(sh):
     quick = sh.tier == 'quick'
     combos_all = all_combos()
+    first_use(sh)
     nh = 32 if quick else 320
     for i in range(nh):
         if not sh.mine(i):
@@ -295,7 +363,7 @@ def run_shard(sh):
 
 def finalize(m):
     need = ['get_default_config states verified', 'sensitivity anchors verified', 'agree: pformat', 'agree: pformat-positional', 'agree: pprint', 'agree: pprint-positional',
-            'agree: pprint-stdout', 'agree: cpprint(color off)', 'agree: PrettyPrinter.pformat', 'agree: PrettyPrinter.pprint', 'agree: pretty_repr', 'agree: pretty_repr as first entry point of a deferred type']
+            'agree: pprint-stdout', 'agree: cpprint(color off)', 'agree: PrettyPrinter.pformat', 'agree: PrettyPrinter.pprint', 'agree: pretty_repr', 'agree: pretty_repr as first entry point of a deferred type', 'first-use prints through an entry point equal to pformat']
     for name in need:
         if not m.counters.get(name):
             m.inconclusive.append('monitor never reached: ' + name)
@@ -303,6 +371,14 @@ def finalize(m):
 
 def replay(wit):
     c = wit['case']
+    if 'first_use' in c:
+        entry, which = c['first_use']
+        a = fork_call(first_use_child, ('pformat', which), timeout=120)
+        b = fork_call(first_use_child, (entry, which), timeout=120)
+        print('pformat first :', a)
+        print(entry, 'first:', b)
+        print('holds on this case' if a == b else 'VIOLATED first-use-entry-point-differs')
+        return a == b
     history = c.get('history', [])
     ex = {k: eval(v) for k, v in c.get('explicit', {}).items()}
     status, res = fork_call(run_history, (history, [ex], ['\n', '', 'X']), timeout=300)
